@@ -150,4 +150,3 @@ func cmdVerify(args []string) {
 	}
 	fmt.Printf("total %d obligations, %d discharged, %.1fs\n", tot, ok, time.Since(t0).Seconds())
 }
-
